@@ -633,7 +633,22 @@ func (conn *Conn) Close() error {
 	// have filled. See TestSendDeadlockOnFullBuffer in connection_test.go.
 	conn.drainIn()
 	conn.drainOut()
-	conn.wg.Wait()
+	// Keep draining until every goroutine has exited: recv may still be
+	// working through buffered input, and handlers run by runLoop may
+	// still be sending, so either channel can fill up again.
+	done := make(chan struct{})
+	go func() {
+		conn.wg.Wait()
+		close(done)
+	}()
+	for drained := false; !drained; {
+		select {
+		case <-conn.in:
+		case <-conn.out:
+		case <-done:
+			drained = true
+		}
+	}
 	conn.mu.Unlock()
 	// Dispatch after closing connection but before reinit
 	// so event handlers can still access state information.
